@@ -14,8 +14,14 @@ fn main() {
         eprintln!("usage: verif-engine <property> <quick|thorough> | --replay <file>");
         std::process::exit(2);
     }
+    if args[1] == "--scenario" && args.len() >= 6 {
+        std::process::exit(props::c03::scenario_child(&args[2], args[3].parse().unwrap(), &args[4], &args[5]));
+    }
     let threads = std::env::var("VERIF_THREADS").ok().and_then(|s| s.parse().ok()).unwrap_or(16);
     rayon::ThreadPoolBuilder::new().num_threads(threads).stack_size(16 << 20).build_global().unwrap();
+    if args[1] == "--merge-evidence" {
+        std::process::exit(props::c03::merge_evidence(&args[2], &args[3], &args[4..]));
+    }
     if args[1] == "--dbg-witness" {
         dbg_witness();
         return;
@@ -40,6 +46,7 @@ fn main() {
     }
     let code = match prop {
         "C01" | "C02" | "C04" | "C05" => props::base::run(prop, tier),
+        "C03" => props::c03::run(tier),
         _ => {
             eprintln!("unknown property {prop}");
             2
@@ -50,7 +57,8 @@ fn main() {
 
 pub fn replay_case(case: &serde_json::Value, verbose: bool) -> Vec<String> {
     match case["prop"].as_str().unwrap_or("") {
-        "C01" | "C02" | "C03" | "C04" | "C05" => props::base::replay(case, verbose),
+        "C01" | "C02" | "C04" | "C05" => props::base::replay(case, verbose),
+        "C03" => props::c03::replay(case, verbose),
         p => panic!("no replay for property {p}"),
     }
 }
